@@ -119,6 +119,16 @@ def run(ctx: C.Ctx):
         r = rng.random()
         ne = rng.randint(1, ctx.scale(6, 9))
         nf = rng.randint(ne + 1, ne + ctx.scale(6, 10)) if r < 0.8 else rng.randint(1, ne)   # mostly more sensors than modes
+        more_modes = None
+        if r >= 0.8 and rng.random() < 0.6:
+            # more modes than sensors (every position of the ranking is a leading one; no tail at all): e.g. the default Identity basis
+            # on more snapshots than sensors.  n_features < n_modes < 2·n_features is where an off-by-sign tail slice would land inside
+            # the ranking
+            nf = rng.randint(3, ctx.scale(8, 10))
+            more_modes = rng.randint(nf + 1, 2 * nf - 1)
+            ne = more_modes + rng.randint(0, 2)
+            basis = rng.choice(["identity", "identity", "rp"])
+            ctx.count("more_modes_than_sensors")
         X = [[rng.randint(-6, 6) for _ in range(nf)] for _ in range(ne)]
         # degenerate training sets: a snapshot recorded twice, a multiple of another one, an all-zero snapshot
         if ne >= 2 and rng.random() < 0.3:
@@ -140,6 +150,8 @@ def run(ctx: C.Ctx):
             nm = rng.randint(1, min(ne, nf))
         else:
             nm = rng.randint(1, ne)
+        if more_modes is not None:
+            nm = None if (basis == "identity" and ne == more_modes and rng.random() < 0.5) else more_modes
         cfg = {"basis": basis, "n_modes": nm, "opt": rng.choice(["qr", "ccqr", "gqr"]), "X": X,
                "ns": rng.choice([None, rng.randint(1, nf)])}
         if cfg["opt"] == "gqr" and rng.random() < 0.6:
